@@ -243,23 +243,35 @@ def visible (fs : FS) : List Nat := (adopted fs).flatMap (fun s => segVisible (f
 
 def torn (fs : FS) : List Nat := (adopted fs).flatMap (fun s => segTorn (fs.seg s))
 
-/-- flushes counted by the metadata (RecordCount of segmeta.json lines / adopted .sfm): what `| stats count`
-answers for segments that are not open -/
-def counted (fs : FS) : List Nat :=
-  fs.segmeta.flatMap (·.2) ++ (sfmAdopted fs).flatMap (fun s => (fs.seg s).sfm.blocks)
-
 /-- flushes covered by the segment statistics used for `| stats sum(..)`: the .sst when present, else the blocks -/
 def statted (fs : FS) : List Nat :=
   (adopted fs).flatMap (fun s => match (fs.seg s).sst with
     | some c => c
     | none => segVisible (fs.seg s))
 
+/-- `coverBlockSummaries` (queryrefresh.go): the flushes the record of a segment adopted through its .sfm is made to
+cover — those the .sfm was built from, and every further block summary the .bsu holds (the block summary of a
+flush is appended before the running .sfm is replaced; the restart widens the time range by every summary and,
+when the summaries hold more records than the .sfm counts, takes record count and columns from them) -/
+def reconciled (st : SegSt) : List Nat :=
+  st.sfm.blocks ++ (st.bsu.map (·.1)).filter (fun f => !st.sfm.blocks.contains f)
+
 /-- the segment metadata records the query node holds after startup, in adoption order, each with the flushes the
 record was BUILT FROM (its time range, record count and column set are those of the SegStore after these flushes,
-see Model/CrashMeta.lean): the lines of segmeta.json, then the .sfm of every directory adopted through it
-(`readSegFullMetaFileAndPopulate`).  `adopted = metas.map (·.1)`, `counted = metas.flatMap (·.2)`. -/
+see Model/CrashMeta.lean): the lines of segmeta.json, then the record of every directory adopted through its .sfm
+(`readSegFullMetaFileAndPopulate`: the .sfm content, made to cover the block summaries).
+`adopted = metas.map (·.1)`. -/
 def metas (fs : FS) : List (Nat × List Nat) :=
+  fs.segmeta ++ (sfmAdopted fs).map (fun s => (s, reconciled (fs.seg s)))
+
+/-- BEFORE the repair of `readSegFullMetaFileAndPopulate`: the adopted record was the .sfm content as it is (kept
+for the counterexample theorems) -/
+def metasOld (fs : FS) : List (Nat × List Nat) :=
   fs.segmeta ++ (sfmAdopted fs).map (fun s => (s, (fs.seg s).sfm.blocks))
+
+/-- flushes counted by the metadata (RecordCount of the records): what `| stats count` answers for segments that
+are not open -/
+def counted (fs : FS) : List Nat := (metas fs).flatMap (·.2)
 
 /-- the suffix the restarted writer gives its first segment (`getSuffix`: missing file = 0) -/
 def nextSuffix (fs : FS) : Nat := fs.suffix.getD 0
